@@ -133,7 +133,7 @@ structure BeamTrace where
   par : List (List Nat)
   bbi : List (List Nat)
   score : List (List LP)
-  valid : List Bool
+  valid : List String
 
 /--
 `loglik.beam B W N T | start[B·W] | lp[T·(B·W)·N] | top[T·B·W] (pass-major, then instance, then rank)
@@ -158,7 +158,7 @@ def beamH (toks : List String) : Option String := do
     | fuel + 1 =>
       let lp : Nat → Row := fun i => (List.range N).map fun j => lpA.getD ((t * BW + i) * N + j) none
       let top : Nat → List Nat := fun b => slice topL ((t * B + b) * W) W
-      let ok := (List.range B).all fun b => validTop c (hstacked c f32add lp st.score b) (top b)
+      let ok := bits ((List.range B).map fun b => validTop c (hstacked c f32add lp st.score b) (top b))
       let st' := beamStep e c f32add lp top st
       go (t + 1) fuel st'
         { sel := flat.map (selectedOf c top) :: tr.sel, par := flat.map (parentOf c top) :: tr.par,
@@ -179,7 +179,7 @@ def beamH (toks : List String) : Option String := do
         | some m => toString m
       s!" picked={natsStr picked} validarg={bit (validArgmax B W rew arg)} got={intsStr (picked.map rew)} best={",".intercalate best}"
   pure (s!"sel={join2 tr.sel} par={join2 tr.par} bbi={join2 tr.bbi} "
-    ++ s!"score={";".intercalate (tr.score.reverse.map lpsStr)} validtop={bits tr.valid.reverse} "
+    ++ s!"score={";".intercalate (tr.score.reverse.map lpsStr)} validtop={",".intercalate tr.valid.reverse} "
     ++ s!"seq={rowsStr BW fun i => natsStr (seq i)} "
     ++ s!"vals={rowsStr BW fun i => lpsStr (getLL (recsOf i) (seq i) none)} "
     ++ s!"ll={rowsStr BW fun i => lpStr (getLLSum (recsOf i) (seq i) none)}" ++ bestPart)
